@@ -39,7 +39,7 @@ def run_case(case):
     died, harness = thread_exc_violations(hist['thread_excs'], V)
     if harness:
         raise HarnessError('thread exception in buffer harness: %r' % harness)
-    viol = B.judge_delivery(case, hist) + died
+    viol = B.judge_delivery(case, hist) + died + B.judge_other(case, hist)
     T = case['T']
     cl = ['sched=' + case['sched']['mode']]
     failed = any(not c['ok'] for c in hist['calls'])
